@@ -846,6 +846,7 @@ fn main() {
         }
     }
     let mut dead = 0;
+    let mut executed = 0usize;
     for (k, s) in schedules.iter().enumerate() {
         log.reset(k as u64 + 1, json!({"sched": s.id}));
         let mut run = Run::new(log.clone(), seed.wrapping_add(k as u64));
@@ -859,11 +860,17 @@ fn main() {
             _ => None,
         };
         run.run(s);
+        executed = k + 1;
+        // a change that makes the router spin or panic in a whole class of schedules makes each of them run into
+        // the spin budget: after sixty such runs the verdicts are in, the rest is not run
         if run.dead {
             dead += 1;
+            if dead >= 60 {
+                break;
+            }
         }
     }
     log.flush();
     let _: Option<Value> = None;
-    println!("{}", json!({"runs": schedules.len(), "events": log.lines(), "dead": dead}));
+    println!("{}", json!({"runs": executed, "of": schedules.len(), "events": log.lines(), "dead": dead}));
 }
